@@ -31,7 +31,7 @@ MAL_TOKENS = ['1', 'zz', '+', '-', '*', '(', ')', '<<', '&', 'LSB(', '@', '!']
 def meta(tier):
     q = tier == 'quick'
     return {
-        'rule': 'expressions of one operator (thorough: two) read out of source lines (.8byte, a constant, an #if condition) with blanks, tabs, or both between the tokens; then: every expression tree with <=N operator nodes over the atom sets (printed minimally parenthesised and '
+        'rule': 'quoted characters read out of source lines (8 ordinary ones and 15 that mean something elsewhere on a line: blank, tab, ; # : = " ( ) @ $ % . _ [) x 6 expression shapes x {constant, data directive, instruction operand}; expressions of one operator (thorough: two) read out of source lines (.8byte, a constant, an #if condition) with blanks, tabs, or both between the tokens; then: every expression tree with <=N operator nodes over the atom sets (printed minimally parenthesised and '
                 'fully parenthesised), every literal value x notation, every token sequence up to the length bound; '
                 'non-trivial = a tree with >=2 operators whose minimal rendering needs the stated precedence/associativity '
                 '(fewer parentheses than the full rendering) or a malformed token sequence; distinct by construction',
@@ -99,18 +99,18 @@ def _guard():
     cap = 3 << 30
     if soft == resource.RLIM_INFINITY or soft > cap:
         resource.setrlimit(resource.RLIMIT_AS, (cap, hard))
-    signal.signal(signal.SIGALRM, _on_alarm)
+    signal.signal(signal.SIGPROF, _on_alarm)      # processor time: the load of the machine never reads as a hang
 
 
 def eval_real(text):
     import signal
     parse_expression, scope, lid = seam()
     _guard()
-    signal.setitimer(signal.ITIMER_REAL, 20)
+    signal.setitimer(signal.ITIMER_PROF, 20)
     try:
         return ('OK', parse_expression(lid, text).get_value(scope, lid))
     except _Hang:
-        return ('HANG', 'no answer within 20 s')
+        return ('HANG', 'no answer within 20 s of processor time')
     except MemoryError:
         return ('REJECT', 'MemoryError')
     except SystemExit as e:
@@ -122,7 +122,7 @@ def eval_real(text):
     except Exception as e:
         return ('REJECT', type(e).__name__)
     finally:
-        signal.setitimer(signal.ITIMER_REAL, 0)
+        signal.setitimer(signal.ITIMER_PROF, 0)
 
 
 def atom_tree(a, j):
@@ -191,6 +191,7 @@ def shard(acc, tier, idx, n):
     q = tier == 'quick'
     ctr = 0
     directive_contexts(acc, idx, n, q)
+    source_characters(acc, idx, n)
     # ---- trees ---------------------------------------------------------------------------------
     plan = [(0, '8'), (1, '8'), (2, '8'), (3, '4' if q else '6')]
     if not q:
@@ -303,6 +304,34 @@ def directive_contexts(acc, idx, n, q):
             if m:
                 acc.violation([case], spec, f'{e!r} in a data directive / constant / condition: {m}', [out])
             acc.judge(clause='in-directive', nontrivial_distinct=(sep != ' '))
+
+
+def source_characters(acc, idx, n):
+    """A quoted character read out of a source file denotes its code point, also when the character is one that means something
+    elsewhere on a line (blank, tab, comment sign, directive sign, label colon, quote of the other kind...)."""
+    from mc.judges import judge_expect
+    ctr = 0
+    for ch in CHARS + [' ', '\t', ';', '#', ':', '=', '"', '(', ')', '@', '$', '%', '.', '_', '[']:
+        lit = f"'{ch}'"
+        for k, (tmpl, f) in enumerate(((('{}'), lambda v: v), ('{}*2+1', lambda v: v * 2 + 1), ('-{}+10', lambda v: 10 - v), ('{} % 4', lambda v: v % 4),
+                                       ('LSB({})', lambda v: v & 0xFF), ('1 + {}', lambda v: v + 1))):
+            ctr += 1
+            if ctr % n != idx:
+                continue
+            e = tmpl.format(lit)
+            want = f(ord(ch))
+            ins = ch not in ',[' and want >= 0 and want < 256
+            # (a data list that opens with a quote is read as a string: known finding F24b of C11; there the expression goes through a constant only)
+            direct = not e.startswith("'")
+            src = (f'    .8byte {e}\n' if direct else '') + f'KD = {e}\n    .8byte KD\n' + (f'    ldi a, {e}\n' if ins else '')
+            case = Case(ISA, src)
+            out = acc.run(case)
+            img = (want % (1 << 64)).to_bytes(8, 'big')
+            spec = {'type': 'program', 'expect': 'OK', 'image_hex': ((img if direct else b'') + img + (bytes([0xA0, want]) if ins else b'')).hex(), 'expr': e}
+            m = judge_expect(spec, [out])
+            if m:
+                acc.violation([case], spec, f'{e!r} read from a source line: {m}', [out])
+            acc.judge(clause='in-directive', nontrivial_distinct=True)
 
 
 def attribute(text, want, got):
